@@ -54,6 +54,18 @@ class Gen:
             return "(begin (tick %d) %s)" % (self.tick_id, e)
         return e
 
+    def seq(self, n, gen):
+        """n expressions; now and then one is its left neighbour written again, character for character (the same
+        probe number included): a run of equal sub-forms is still a run of that many sub-forms"""
+        out = []
+        for _ in range(n):
+            if len(out) >= 1 and self.rng.random() < 0.3:
+                self.note("repeated-neighbour")
+                out.append(out[-1])
+            else:
+                out.append(gen())
+        return out
+
     # ---- expressions by type
     def int_(self, env, d):
         r = self.rng
@@ -138,6 +150,8 @@ class Gen:
                 if earlier_shadowed and r.random() < 0.7:
                     # mentions a name that an EARLIER binding of this same let shadows
                     inits.append("(+ %s %s)" % (r.choice(earlier_shadowed), e()))
+                elif inits and r.random() < 0.3:
+                    inits.append(inits[-1])
                 else:
                     inits.append(e())
             binds = " ".join("(%s %s)" % (nm, i) for nm, i in zip(names, inits))
@@ -160,7 +174,7 @@ class Gen:
                 elif c < 0.3:
                     clauses.append("(%s)" % e())
                 else:
-                    clauses.append("(%s %s)" % (b(), " ".join(e() for _ in range(r.randrange(1, 3)))))
+                    clauses.append("(%s %s)" % (b(), " ".join(self.seq(r.randrange(1, 5), e))))
             clauses.append("(else %s)" % e())
             return "(cond %s)" % " ".join(clauses)
         if k == 3:
@@ -175,15 +189,15 @@ class Gen:
             clauses.append("(else %s)" % e() if r.random() < 0.8 else "(else => (lambda (z) z))")
             return "(case %s %s)" % (self.tick(self.int_(env, d - 1)), " ".join(clauses))
         if k == 4:
-            return "(if (and %s) %s %s)" % (" ".join(b() for _ in range(r.randrange(0, 4))), e(), e())
+            return "(if (and %s) %s %s)" % (" ".join(self.seq(r.randrange(0, 5), b)), e(), e())
         if k == 5:
-            return "(if (or %s) %s %s)" % (" ".join(b() for _ in range(r.randrange(0, 4))), e(), e())
+            return "(if (or %s) %s %s)" % (" ".join(self.seq(r.randrange(0, 5), b)), e(), e())
         if k == 6:
-            return "(begin %s)" % " ".join(e() for _ in range(r.randrange(1, 4)))
+            return "(begin %s)" % " ".join(self.seq(r.randrange(1, 5), e))
         if k == 7:
-            return "(let ((%s (when %s %s))) 1)" % (self.fresh("t"), b(), " ".join(e() for _ in range(r.randrange(1, 3))))
+            return "(let ((%s (when %s %s))) 1)" % (self.fresh("t"), b(), " ".join(self.seq(r.randrange(1, 5), e)))
         if k == 8:
-            return "(let ((%s (unless %s %s))) 2)" % (self.fresh("t"), b(), " ".join(e() for _ in range(r.randrange(1, 3))))
+            return "(let ((%s (unless %s %s))) 2)" % (self.fresh("t"), b(), " ".join(self.seq(r.randrange(1, 5), e)))
         return "(or (and %s %s) %s)" % (b(), e(), e())
 
     def bool_(self, env, d):
@@ -239,6 +253,25 @@ class Gen:
                     else:
                         out.append("(define (%s %s) %s)" % (nm, p, b))
                     env.append((nm, ("proc", 1)))
+        if r.random() < 0.15:
+            # an internal definition whose initialiser CALLS a procedure written there, and the closure that call returns
+            # refers to a LATER internal definition of the same body (legal: it is called only after both are defined)
+            self.note("forward-internal")
+            fa, fb, p = self.fresh("i"), self.fresh("i"), self.fresh("q")
+            arg = self.int_(env, d - 2)
+            val = self.int_(env, d - 2)
+            shape = r.randrange(4)
+            if shape == 0:
+                out.append("(define %s ((lambda (%s) (lambda () (+ %s %s))) %s))" % (fa, p, p, fb, arg))
+            elif shape == 1:
+                out.append("(define %s (car (map (lambda (%s) (lambda () (+ %s %s))) (list %s))))" % (fa, p, p, fb, arg))
+            elif shape == 2:
+                out.append("(define %s (apply (lambda (%s) (lambda () (+ %s %s))) (list %s)))" % (fa, p, p, fb, arg))
+            else:
+                out.append("(define %s (let ((%s %s)) (lambda () (+ %s %s))))" % (fa, p, arg, p, fb))
+            out.append("(define %s %s)" % (fb, val))
+            env.append((fb, "int"))
+            env.append((fa, ("proc", 0)))
         for _ in range(r.choice([0, 0, 0, 1, 2])):
             out.append(self.tick(self.int_(env, d - 1)))
         out.append(self.tick(self.int_(env, d)))
